@@ -436,10 +436,22 @@ impl Processor {
                             }
                         }
                         Some(Message::NotificationMessage(pdu)) => {
-                            debug!(
-                                "received NOTIFICATION: {:?}",
-                                pdu.details()
-                            );
+                            // routecore accepts a NOTIFICATION of any
+                            // length; details() indexes the code and
+                            // subcode bytes, which a message shorter than
+                            // 21 bytes does not have.
+                            if pdu.as_ref().len() >= 21 {
+                                debug!(
+                                    "received NOTIFICATION: {:?}",
+                                    pdu.details()
+                                );
+                            } else {
+                                debug!(
+                                    "received malformed NOTIFICATION \
+                                     ({} bytes)",
+                                    pdu.as_ref().len()
+                                );
+                            }
                         }
                         Some(Message::ConnectionLost(socket)) => {
                             //TODO clean up RIB etc?
